@@ -133,13 +133,24 @@ def lib_case(case):
 
 def cli_case(case):
     root = runner.new_dir("p")
+    cwd = root
+    targets = case["targets"]
+    if case.get("parent"):
+        # the project lives under a directory with a special name; targets are spelled through it
+        base = root
+        root = os.path.join(base, case["parent"], "proj")
+        os.makedirs(root)
+        if case["spelling"] == "abs":
+            cwd, targets = base, [os.path.join(root, t) if t != "." else root for t in targets]
+        else:
+            cwd, targets = base, [os.path.normpath(os.path.join(case["parent"], "proj", t)) for t in targets]
     files = dict(case["files"])
     files[".thailint.yaml"] = case["config"]
     runner.write_tree(root, files)
     res = {}
     for mode in ("seq", "par"):
-        argv = [case["cmd"], "--format", "json"] + (["--parallel"] if mode == "par" else []) + case["targets"]
-        r = runner.cli(argv, root, timeout=300)
+        argv = [case["cmd"], "--format", "json"] + (["--parallel"] if mode == "par" else []) + targets
+        r = runner.cli(argv, cwd, timeout=300)
         vs = r.violations()
         res[mode] = {"exit": r.exit, "v": None if vs is None else sorted([v["rule_id"], v["file_path"], v["line"], v["column"], v["message"]] for v in vs),
                      "err": r.err[-400:], "argv": argv, "swallowed": r["swallowed"]}
@@ -238,6 +249,13 @@ def run(ctx):
             tg = rng.choice([["."], ["src"], sorted(proj)])
             cli_cases.append({"files": proj, "config": CONFIG, "cmd": cmd, "targets": tg, "id": "cli:n%d:%s" % (n, cmd), "n": n})
     cli_cases.append({"files": make_project(rng, 20, "cb"), "config": bad_cfg, "cmd": "nesting", "targets": ["."], "id": "cli:invalid-config", "n": 20})
+    # same comparison for projects that live under specially named directories (decided per path, must not differ between modes)
+    for j, parent in enumerate(["build", "dist", "venv", "node_modules", "pkg.egg-info", "tests", "plain"] if not ctx.quick else ["build", "node_modules", "tests"]):
+        for n in (5, 20):
+            proj = make_project(rng, n, "pp%d%d" % (j, n))
+            for spelling in ("abs", "rel"):
+                cli_cases.append({"files": proj, "config": CONFIG, "cmd": rng.choice(["magic-numbers", "nesting", "srp"]), "targets": rng.choice([["."], sorted(proj)]),
+                                  "id": "cli:parent-%s:%s:n%d" % (parent, spelling, n), "n": n, "parent": parent, "spelling": spelling})
     outs = runner.pmap(cli_case, cli_cases, timeout=900, workers=6)
     for case, o in zip(cli_cases, outs):
         if not o.get("ok"):
